@@ -178,8 +178,9 @@ pub fn oracle_kf(c: &HistoryCase, obs: &mut Obs, kf: Kf) -> Verdict {
         return Verdict::Pass;
     }
     // KF3 signature: a tag sits on a wrapper line of an unwrap-block, or a wrapper line is blank
-    // Documents with the signature of KF3 / KF8 are not dropped: the composition relation is replaced by what still
-    // holds for them on the unchanged tree (no panic, exact idempotence of every step)
+    // Documents with the signature of KF3 / KF8 are not dropped: every run of the history is still executed (on the
+    // original, on the previous result and on its own result), and must return; nothing about the text holds there
+    // on the unchanged tree, not even idempotence (a tag that lost its partner pairs up with another one in the next run)
     let mut relaxed = false;
     if kf3 {
         let mut strict = opts().domain();
@@ -233,7 +234,7 @@ pub fn oracle_kf(c: &HistoryCase, obs: &mut Obs, kf: Kf) -> Verdict {
             Ok(o) => o,
             Err(p) => vfail!("step {i}: clean of the cleaned text panicked: {p}\n  text = {:?}", next),
         };
-        if again != next {
+        if again != next && !relaxed {
             vfail!("step {i} (time index {}, targets {:?}): cleaning the output again changes it\n  original = {:?}\n  once     = {:?}\n  twice    = {:?}", acfg.now_idx, cfg.targets, truncate(&r.src, 900), truncate(&next, 900), truncate(&again, 900));
         }
         // (2) composition up to whitespace
@@ -244,7 +245,7 @@ pub fn oracle_kf(c: &HistoryCase, obs: &mut Obs, kf: Kf) -> Verdict {
         if relaxed {
             // (nothing about the text can be asserted here: once a pending element has lost one of its tags to an
             // unwrap part, same-name tags pair up differently and later runs delete text far outside the element)
-            obs.class("KF3/KF8-layout(no panic, idempotence)");
+            obs.class("KF3/KF8-layout(no panic only)");
             prev_ready = tr.n_ready;
             cur = next;
             continue;
